@@ -703,7 +703,7 @@ def O8(vc):
             vc.emit('namespaces.update', revised.held)
             return super().update(*a)
     insights.namespaces = NsSet(insights.namespaces)
-    vc.used('references.select_specific_namespaces', 'O10'); vc.used('observation.revise_namespaces', 'O5')
+    vc.used('references.select_specific_namespaces', 'O10s'); vc.used('observation.revise_namespaces', 'O5')
     vc.used('fetching.list_objs', 'trusted'); vc.used('queueing.watcher', 'Q5'); vc.used('Backbone.wait_for', 'O11')
     ld = vc.load('kopf._core.reactor.observation', 'namespace_observer', stubs={
         'references.select_specific_namespaces': select_specific, 'fetching.list_objs': list_objs,
@@ -1531,7 +1531,7 @@ def N6s(vc):
     def on_suspend(site):
         if stopper is not None:
             stopper.havoc()
-    vc.used('api.request', 'N2+N3'); vc.used('api.iter_jsonlines', 'N6')
+    vc.used('api.request', 'N2+N3'); vc.used('api.iter_jsonlines', 'N6d (thorough tier) + N6 bounded')
     ld = vc.load('kopf._cogs.clients.api', 'stream', stubs={
         # asyncio.current_task(): the running task inside the coroutine -- and None inside a callback the event loop runs
         # (future done-callbacks are run by loop.call_soon, outside of any task)
